@@ -45,7 +45,7 @@ MANIFEST = {
     "note": "trusted: astropy WCS/FITS; wwt_data_formats for the astrometry both routes share; the multiprocessing model",
     "technique": "deterministic simulation: seeded schedule search over multi-image tiling (queue handshake + file-lock interleavings); differential oracle vs single-image route and numpy reference",
 }
-BUDGET = {"quick": (260, 75), "thorough": (12000, 1500)}
+BUDGET = {"quick": (260, 75), "thorough": (100000, 1500)}
 REQUIRED_PROBES = {"quick": ["shared_tile", "overlapping_inputs", "mixed_parity", "lock_contended"],
                    "thorough": ["shared_tile", "overlapping_inputs", "mixed_parity", "lock_contended", "multi_level", "three_levels", "image_in_extension_hdu", "blankval_sentinel"]}
 CHUNK = 4
